@@ -429,6 +429,7 @@ pub fn run(tier: Tier, totals: &mut Totals) {
     look_alike_names(totals);
     word_values(totals);
     output_is_an_input(totals);
+    listings_in_a_row(totals);
 }
 
 /// Names that are prefixes of one another: every subset of nine look-alike names defined, then one
@@ -717,6 +718,36 @@ fn output_is_an_input(totals: &mut Totals) {
     }
 }
 
+/// Listings in a row: get_all_var_names lists the names of the moment, every time - also when the earlier
+/// listings are still held, and the variables between two listings changed names but not their number
+/// (nor the length of their names): one unset and one set, a push that copies one and a set of another.
+fn listings_in_a_row(totals: &mut Totals) {
+    for (how, change, gone, new) in [
+        ("unset-and-set", "unset a\nb = set 2", "a", "b"),
+        ("set_by_name", "set_by_name a\nset_by_name b 2", "a", "b"),
+        ("push-copy-and-set", "scope_push_stack --copy l\nc = set 3", "a", "c"),
+        ("unset_all_vars-prefix", "unset_all_vars --prefix a\nb = set 2", "a", "b"),
+    ] {
+        for held in [true, false] {
+            let release = if held { "" } else { "release ${l}\n" };
+            let text = format!(
+                "a = set 1\nl = get_all_var_names\n{r}l = get_all_var_names\nn2 = array_length ${{l}}\n{r}{change}\nl = get_all_var_names\nn3 = array_length ${{l}}\nhas_gone = array_contains ${{l}} {gone}\nhas_new = array_contains ${{l}} {new}\nhas_l = array_contains ${{l}} l\nnew_found = not equals ${{has_new}} false\nl_found = not equals ${{has_l}} false",
+                r = release,
+                change = change,
+                gone = gone,
+                new = new
+            );
+            crate::util::scale_case_totals(
+                totals,
+                &format!("listings-in-a-row {} {}", how, if held { "held" } else { "released" }),
+                &text,
+                // (after a push the count taken before it is not among the variables any more)
+                &[("n2", if how == "push-copy-and-set" { None } else { Some("2".into()) }), ("has_gone", Some("false".into())), ("new_found", Some("true".into())), ("l_found", Some("true".into()))],
+            );
+        }
+    }
+}
+
 /// Depth and size far beyond the search bound: a scope stack hundreds of maps deep and a map with
 /// hundreds of variables, as scripts whose results are computed here.
 fn scale(tier: Tier, totals: &mut Totals) {
@@ -848,7 +879,7 @@ pub fn replay(case: &Value) -> Result<String, String> {
     Err("history uses operations outside the alphabet".into())
 }
 
-pub const RULE: &str = "explicit-state breadth-first search from the empty context: every operation of the alphabet (set via a one-line script; set_by_name with/without value, get_by_name, is_defined, unset with 1-2 names, get_all_var_names, unset_all_vars plain and --prefix, clear_scope, scope_push_stack / scope_pop_stack without --copy and with every --copy list of 0..2 names) is applied to every reachable state; pushes are disabled at the stack-depth bound so the space is finite and searched to a fixpoint. Each transition runs the real command, compares its output, the complete variable map, the saved maps inside the scope stack and the handle table with the model (map + stack of maps). States are de-duplicated on the implementation's own state (variables and the whole state map). evaluations = transitions; distinct_nontrivial = distinct states. Prefix family: every subset of nine look-alike names {p::a, p::b::c, p2::a, pp::a, p, px, q::p::a, p:a, P::a} x clear_scope p / p2 / q / p::b and unset_all_vars --prefix p / p:: / p2 / q::p: exactly the names the operation speaks of are removed. Scale cases (scripts, results computed in Rust): a scope stack 10/70/300 (thorough 1000, 3000) levels deep pushed and popped with --copy, a pop on the emptied stack; 10..300 variables written and read by name and removed by prefix Prefix family: 12 look-alike names (incl. p::::a, p::, ' p::a') x 18 operations (clear_scope and unset_all_vars --prefix with names ending in the separator, with blanks, in another case): exactly the names starting with NAME:: (the prefix) are removed. Padded names: 9 names with white space around them through set_by_name / get_by_name / is_defined / unset: another name than without. Look-alike names: 7 groups of names that differ only in letter case, dotted / dotless i, composed / decomposed form, sharp s, a ligature, the Kelvin sign, a look-alike colon - all defined at once: each keeps its value, the list of names has all, unsetting one leaves the others Word values: 55 values that read like words of the language (or, and, not, block keywords, the false words), numbers, handles, scopes, options, labels, blanks, through set_by_name / get_by_name / is_defined / scope_push_stack --copy / scope_pop_stack --copy / a second set_by_name, under a plain and a prefixed name. Output is an input: lines whose output variable is the variable the command reads (get_by_name, is_defined, set_by_name, set with a reference to itself, get_all_var_names twice into one variable, get_by_name between a push and a pop that copy the variable, a read of an undefined name into a defined variable), under a plain and a prefixed name, at the top level and inside a function.";
+pub const RULE: &str = "explicit-state breadth-first search from the empty context: every operation of the alphabet (set via a one-line script; set_by_name with/without value, get_by_name, is_defined, unset with 1-2 names, get_all_var_names, unset_all_vars plain and --prefix, clear_scope, scope_push_stack / scope_pop_stack without --copy and with every --copy list of 0..2 names) is applied to every reachable state; pushes are disabled at the stack-depth bound so the space is finite and searched to a fixpoint. Each transition runs the real command, compares its output, the complete variable map, the saved maps inside the scope stack and the handle table with the model (map + stack of maps). States are de-duplicated on the implementation's own state (variables and the whole state map). evaluations = transitions; distinct_nontrivial = distinct states. Prefix family: every subset of nine look-alike names {p::a, p::b::c, p2::a, pp::a, p, px, q::p::a, p:a, P::a} x clear_scope p / p2 / q / p::b and unset_all_vars --prefix p / p:: / p2 / q::p: exactly the names the operation speaks of are removed. Scale cases (scripts, results computed in Rust): a scope stack 10/70/300 (thorough 1000, 3000) levels deep pushed and popped with --copy, a pop on the emptied stack; 10..300 variables written and read by name and removed by prefix Prefix family: 12 look-alike names (incl. p::::a, p::, ' p::a') x 18 operations (clear_scope and unset_all_vars --prefix with names ending in the separator, with blanks, in another case): exactly the names starting with NAME:: (the prefix) are removed. Padded names: 9 names with white space around them through set_by_name / get_by_name / is_defined / unset: another name than without. Look-alike names: 7 groups of names that differ only in letter case, dotted / dotless i, composed / decomposed form, sharp s, a ligature, the Kelvin sign, a look-alike colon - all defined at once: each keeps its value, the list of names has all, unsetting one leaves the others Word values: 55 values that read like words of the language (or, and, not, block keywords, the false words), numbers, handles, scopes, options, labels, blanks, through set_by_name / get_by_name / is_defined / scope_push_stack --copy / scope_pop_stack --copy / a second set_by_name, under a plain and a prefixed name. Output is an input: lines whose output variable is the variable the command reads (get_by_name, is_defined, set_by_name, set with a reference to itself, get_all_var_names twice into one variable, get_by_name between a push and a pop that copy the variable, a read of an undefined name into a defined variable), under a plain and a prefixed name, at the top level and inside a function. Listings in a row: three get_all_var_names into one variable, the earlier listings held or released, between the last two a change of names that keeps their number and the length of their names (unset + set, set_by_name twice, push --copy + set, unset_all_vars --prefix + set): the last listing has the names of the moment.";
 pub const ASSUMPTIONS: &[&str] = &["names from {a,b,p::a} (thorough also {a,ab,p::a,p}), values from {1, empty, 'x y'}", "for a name that is undefined when copied on pop the model follows the implementation between 'restored' and 'undefined'", "operations other than `name = set value` are run through run_instruction (outputs observed directly, no output variable)"];
 pub const EXHAUSTIVE: bool = true;
 pub const WALL_CAP_S: (u64, u64) = (50, 1500);
